@@ -27,6 +27,11 @@ CLAIMS = {
          "All 779 (precision, scale) pairs x signs x boundary magnitudes are enumerated; random digit strings, text variants, unrepresentable inputs (per root-cause class) and invalid constructions are generated; String() is compared with the exact expansion of u/10^scale, SetString with exact rational arithmetic, rejected input must leave the decimal unchanged.",
          "Variants whose acceptance the documentation does not promise ('+', surrounding spaces, '.5', '5.', zero digits beyond the scale) are tolerated: exact if accepted, otherwise error and unchanged. Precision 0 is not judged (the library itself constructs NewDecimal(0,0)).",
          "DESIGN.md section 3, C16"),
+ "C19": ("exploration",
+         "exhaustive enumeration of (range, version) spaces + rapid generation of capability targets with all permutations, oracle = interval membership on an independently parsed semantic version",
+         "Every (lower, upper, version) triple over the release grid and a pre-release/build sub-grid, every ordered pair/triple of ranges over small bound sets and all capability orders are enumerated; random targets (1..4 capabilities x 0..4 ranges, malformed ranges/versions injected, default and custom comparer) are evaluated under every permutation against an order-independent oracle.",
+         "Version shapes on which hashicorp/go-version deviates from semver precedence are not generated (listed in the evidence assumptions); a range with neither bound counts as no range (code comment + pinned unit test).",
+         "DESIGN.md section 3, C19"),
  "C20": ("exploration",
          "exhaustive enumeration of both level domains + rapid call-history generation + cross-process agreement, oracle = table written from the property text",
          "Every sql.IsolationLevel in -8..64 and every ASE level in -4..8 is enumerated (finite space, complete), each evaluated thousands of times in 5+ separate processes whose answers must agree; random call histories check answer stability. For a function over a tiny finite domain whose only hidden input is map iteration order this is as strong as testing gets.",
